@@ -1,3 +1,4 @@
+(* uses: lib_astwire.ml *)
 (* Driver of the front engine (C02): reads one project per line (abstract file
    system data in the format of the includes engine, see lib/c02front.py
    `abstract`), calls the extracted Model.Includes.run_project and
@@ -11,7 +12,24 @@
      user_ids : FileLibrary::user_inputs as built by Front.user_ids   (front_run)
 
    `model_front classes` prints Spec.NoSilentSpec.class_table, one line per failure class:
-     <class> <producer> <shape>     (constructor names)
+     <class> <producer> <derivation> <shape>     (constructor names)
+
+   `model_front stages` (third pass): the line of `run` followed by four more fields
+     vers     : path,a.b.c|none,0|1;...      of every file that parses: its `pragma circom` version and whether it has a
+                                             main component (harness `front stages`)
+     codes    : 14 numbers  id,name of CompilerVersionError, NoCompilerVersionWarning, MultipleMainInComponent, TupleError,
+                            AnonymousComponentError, ParameterNameCollision, UninitializedSymbolInExpression (the caller's numbering)
+     lib      : s,s,..;s,s,..                the line starts of every file of the FileLibrary, by file id
+     prog     : (prog (def KIND NAME (params P ..) FILE START END <body>) ..)   the definitions as the parser hands them on
+   and prints the JSON of `run` with one more key
+     stage    : {"reports": [[category, id, name, [primary file ids]], ..],      Model.FrontStages.stage_items + sugar_items
+                 "defs": [[kind, name, null | [category, id, name, [pfiles]]], ..], the definitions handed to the runner and the
+                                                                                 d_err Model.FrontStages.stage_def gives them
+                 "metas_ok": bool}                                               every meta of a body lies in the file of its definition
+                | null (Model.Desugar did not answer DOk)
+     compiler_version : Gen.CompilerVersion.compiler_version
+   through Model.FrontStages.stage_run (identity hash orders, the Goldilocks prime, pass budgets 4/4 as in C01's chain driver;
+   err_file = the file of the definition).
 
    line:  argv \t libs \t canon \t dirs \t files \t contents \t pf_id \t pf_name       ("-" = empty list)
      pf_id, pf_name : the numbers the caller gives to ReportCode::ParseFail's id() and name()
@@ -39,8 +57,7 @@ let ostring (s : Ascii.ascii list) : string =
 
 let split c s = if s = "-" || s = "" then [] else Stdlib.String.split_on_char c s
 
-let parse_line line =
-  match Stdlib.String.split_on_char '\t' line with
+let parse_fields = function
   | [argv; libs; canon; dirs; files; contents; pf_id; pf_name] ->
     let canon = Stdlib.List.map (fun e ->
         match Stdlib.String.split_on_char ',' e with
@@ -65,6 +82,8 @@ let parse_line line =
      Stdlib.List.map cstring (split ';' argv), Stdlib.List.map cstring (split ';' libs),
      z_of_int (int_of_string pf_id), z_of_int (int_of_string pf_name))
   | _ -> failwith "fields"
+
+let parse_line line = parse_fields (Stdlib.String.split_on_char '\t' line)
 
 let q s =
   let buf = Buffer.create 32 in
@@ -91,19 +110,81 @@ let rec coqstring (s : String.string) : string =
 let show_full (((level, id), name), pfiles) =
   Printf.sprintf "[\"%s\", %d, %d, %s]" (coqstring level) (int_of_z id) (int_of_z name) (zs pfiles)
 
-let run line =
-  let (d, argv, libs, pf_id, pf_name) = parse_line line in
+let run_with extra (d, argv, libs, pf_id, pf_name) =
   match Includes.run_project false d argv libs, Front.front_run pf_id pf_name d argv libs with
   | Ok s, Ok (full, users) ->
-    Printf.sprintf "{\"status\": \"ok\", \"files\": [%s], \"reports\": [%s], \"full\": [%s], \"user_ids\": %s, \"canon_idempotent\": %b}"
+    Printf.sprintf "{\"status\": \"ok\", \"files\": [%s], \"reports\": [%s], \"full\": [%s], \"user_ids\": %s, \"canon_idempotent\": %b%s}"
       (Stdlib.String.concat ", " (Stdlib.List.map (fun (p, u) -> Printf.sprintf "[%s, %b]" (q p) u) s.Includes.ps_files))
       (Stdlib.String.concat ", " (Stdlib.List.map show_report s.Includes.ps_reports))
       (Stdlib.String.concat ", " (Stdlib.List.map show_full full))
       (zs users)
       (Includes.canon_idempotent_b d)
+      (extra ())
   | Panic _, _ | _, Panic _ -> "{\"status\": \"panic\"}"
   | OutOfFuel, _ | _, OutOfFuel -> "{\"status\": \"outoffuel\"}"
   | _, _ -> "{\"status\": \"err\"}"
+
+let run line = run_with (fun () -> "") (parse_line line)
+
+(* ---- third pass: the stages ---- *)
+let decode_def sx =
+  let open Lib_astwire in
+  match sx with
+  | L [A "def"; A kind; A name; L (A "params" :: ps); file; A s; A e; body] ->
+    let kind = (match kind with "function" -> Ir.KFunction | "template" -> Ir.KTemplate | "custom" -> Ir.KCustom | _ -> bad "kind") in
+    let pfile = (match file with A "-" -> None | A f -> Some (n_of_int (int_of_string f)) | _ -> bad "file") in
+    { PipelineMirrors.d_name = d_name (A name); d_kind = kind; d_params = Stdlib.List.map d_name ps; d_pfile = pfile;
+      d_ploc = (n_of_int (int_of_string s), n_of_int (int_of_string e)); d_body = d_stmt body }
+  | _ -> bad "def"
+
+let goldilocks = z_of_hex "ffffffff00000001"
+let budget = nat_of_int 4
+
+let kind_name = function Runner.KFunction -> "function" | Runner.KTemplate -> "template"
+
+let stages line =
+  match Stdlib.String.split_on_char '\t' line with
+  | [argv; libs; canon; dirs; files; contents; pf_id; pf_name; vers; codes; lib; prog] ->
+    let (d, argv, libs, pf_id, pf_name) as base = parse_fields [argv; libs; canon; dirs; files; contents; pf_id; pf_name] in
+    let vers = Stdlib.List.map (fun e ->
+        match Stdlib.String.split_on_char ',' e with
+        | [p; v; m] ->
+          let v = (match Stdlib.String.split_on_char '.' v with
+              | [a; b; c] -> Some ((nat_of_int (int_of_string a), nat_of_int (int_of_string b)), nat_of_int (int_of_string c))
+              | _ -> None) in
+          (cstring p, (v, m = "1"))
+        | _ -> failwith "vers") (split ';' vers) in
+    let pragma p = (match Stdlib.List.assoc_opt p vers with Some (v, _) -> v | None -> None) in
+    let has_main p = (match Stdlib.List.assoc_opt p vers with Some (_, m) -> m | None -> false) in
+    let cs = (match Stdlib.List.map (fun x -> z_of_int (int_of_string x)) (split ',' codes) with
+        | [a1; a2; b1; b2; c1; c2; d1; d2; e1; e2; f1; f2; g1; g2] ->
+          let c i n = { FrontStages.c_id = i; c_name = n } in
+          { FrontStages.c_version_error = c a1 a2; c_no_version = c b1 b2; c_multiple_main = c c1 c2; c_tuple = c d1 d2;
+            c_anonymous = c e1 e2; c_param_collision = c f1 f2; c_undefined = c g1 g2 }
+        | _ -> failwith "codes") in
+    let lib = Stdlib.List.map (fun f -> Stdlib.List.map (fun x -> n_of_int (int_of_string x)) (split ',' f)) (split ';' lib) in
+    let defs = (match Lib_astwire.parse_sx prog with
+        | Lib_astwire.L (Lib_astwire.A "prog" :: defs) -> Stdlib.List.map decode_def defs
+        | _ -> failwith "prog") in
+    let is_fn dd = (dd.PipelineMirrors.d_kind = Ir.KFunction) in
+    let pr = { PipelineMirrors.pr_lib = lib;
+               pr_templates = Stdlib.List.filter (fun dd -> not (is_fn dd)) defs;
+               pr_functions = Stdlib.List.filter is_fn defs } in
+    let extra () =
+      let cv = CompilerVersion.compiler_version in
+      let cvs = Printf.sprintf ", \"compiler_version\": [%d, %d, %d]" (int_of_nat (fst (fst cv))) (int_of_nat (snd (fst cv))) (int_of_nat (snd cv)) in
+      match FrontStages.stage_run cs pf_id pf_name Dom.id_order (fun l -> l) goldilocks budget budget d pragma has_main argv libs pr
+              ExpandSpec.stmt_metas with
+      | Ok (Some v) ->
+        Printf.sprintf ", \"stage\": {\"reports\": [%s], \"defs\": [%s], \"metas_ok\": %b}%s"
+          (Stdlib.String.concat ", " (Stdlib.List.map show_full v.FrontStages.sv_reports))
+          (Stdlib.String.concat ", " (Stdlib.List.map (fun ((k, n), e) ->
+               Printf.sprintf "[\"%s\", \"%s\", %s]" (kind_name k) (coqstring n)
+                 (match e with None -> "null" | Some r -> show_full r)) v.FrontStages.sv_defs))
+          v.FrontStages.sv_metas_ok cvs
+      | _ -> ", \"stage\": null" ^ cvs in
+    run_with extra base
+  | _ -> failwith "fields"
 
 (* constructor names only *)
 let class_name = function
@@ -114,16 +195,26 @@ let class_name = function
   | NoSilentSpec.InvalidTupleOrAnonymous -> "InvalidTupleOrAnonymous"
   | NoSilentSpec.DuplicateDefinition -> "DuplicateDefinition"
 let producer_name = function
-  | NoSilentSpec.ByIncludes -> "ByIncludes" | NoSilentSpec.ByLift -> "ByLift" | NoSilentSpec.ByOtherStage -> "ByOtherStage"
+  | NoSilentSpec.ByIncludes -> "ByIncludes" | NoSilentSpec.ByVersionCheck -> "ByVersionCheck"
+  | NoSilentSpec.ByMainMatch -> "ByMainMatch" | NoSilentSpec.ByDesugarer -> "ByDesugarer"
+  | NoSilentSpec.ByLifter -> "ByLifter" | NoSilentSpec.ByOtherStage -> "ByOtherStage"
+let derivation_name = function
+  | NoSilentSpec.Derived -> "Derived" | NoSilentSpec.DerivedUpToLocation -> "DerivedUpToLocation"
+  | NoSilentSpec.Assumed -> "Assumed"
 let shape_name = function
   | NoSilentSpec.ShOsError -> "ShOsError" | NoSilentSpec.ShParseError -> "ShParseError"
-  | NoSilentSpec.ShIncludeError -> "ShIncludeError" | NoSilentSpec.ShLiftError -> "ShLiftError"
-  | NoSilentSpec.ShOtherUnlabelled -> "ShOtherUnlabelled" | NoSilentSpec.ShOtherInNamedFile -> "ShOtherInNamedFile"
+  | NoSilentSpec.ShIncludeError -> "ShIncludeError" | NoSilentSpec.ShVersionError -> "ShVersionError"
+  | NoSilentSpec.ShMultipleMain -> "ShMultipleMain" | NoSilentSpec.ShSugarError -> "ShSugarError"
+  | NoSilentSpec.ShParamCollision -> "ShParamCollision" | NoSilentSpec.ShLiftError -> "ShLiftError"
+  | NoSilentSpec.ShOtherInNamedFile -> "ShOtherInNamedFile"
 
 let () =
   match Array.to_list Sys.argv with
   | _ :: "run" :: _ -> each_line (fun l -> try run l with Failure m -> "{\"status\": \"bad-line " ^ m ^ "\"}")
+  | _ :: "stages" :: _ ->
+    each_line (fun l -> try stages l with Failure m -> "{\"status\": \"bad-line " ^ m ^ "\"}" | Not_found -> "{\"status\": \"bad-line not-found\"}")
   | _ :: "classes" :: _ ->
-    Stdlib.List.iter (fun ((c, p), sh) -> print_endline (class_name c ^ " " ^ producer_name p ^ " " ^ shape_name sh))
+    Stdlib.List.iter (fun (((c, p), dv), sh) ->
+        print_endline (class_name c ^ " " ^ producer_name p ^ " " ^ derivation_name dv ^ " " ^ shape_name sh))
       NoSilentSpec.class_table
-  | _ -> prerr_endline "usage: model_front run|classes"; exit 2
+  | _ -> prerr_endline "usage: model_front run|stages|classes"; exit 2
